@@ -23,7 +23,11 @@ for q in _q_variants:
 # element identity with move-only elements (seed C04c: a refused node-local push destroyed the element it was asked to hand back)
 for t in ["nik_e1_up_hp", "ram_e1_up_hp", "ms_up_hp"]:
     _c04_quick.append(run("ownership", t, c=2, weight=0.7))
-_c04_thorough = []
+# sequential sweeps at node sizes 3..32 (several node hand-overs in a row; SCQ cache-line remapping starts at 8 entries)
+_sw_fifo = ["ms_hp", "ram_e4_hp", "ram_e8_ebr", "ram_e3_hp", "nik_e4_hp", "nik_e8_ebr", "nik_e16_hp", "nik_e32_hp"]
+for t in _sw_fifo:
+    _c04_quick.append(run("sweep", t, c=0, opt={"maxn": 40, "laps": 3}, weight=0.1))
+_c04_thorough = [run("sweep", t, c=0, opt={"maxn": 100, "laps": 4}, weight=0.2) for t in _sw_fifo]
 for q in _q_variants:
     for r in RECL_ALL:
         _c04_thorough.append(run("queues", "%s_%s" % (q, r), c=2, weight=4.0 if r == "stamp" else 1.0))
@@ -175,8 +179,16 @@ PLAN["C05"] = {
               run("bounded", "nikolaev", c=2, opt={"cap": 2, "fixed": 1, "prefill": 0}), run("bounded", "nikolaev_p0", c=2, opt={"cap": 2, "fixed": 1, "prefill": 0}),
               run("bounded", "vyukov", c=2, opt={"cap": 2, "fixed": 1, "prefill": 0}),
               # policy-dispatched entry points try_push / try_pop / pop and pop_strong / pop_weak, default_to_weak false and true
-              run("bounded", "vyukov_api", c=2, opt={"cap": 2}, weight=0.7), run("bounded", "vyukov_dw", c=1, opt={"cap": 2}, weight=0.4)],
-    "thorough": [run("bounded", "vyukov_api", c=2, opt={"cap": 2}), run("bounded", "vyukov_dw", c=2, opt={"cap": 2}), run("bounded", "vyukov_api", c=2, opt={"cap": 4, "wrap": 5}),
+              run("bounded", "vyukov_api", c=2, opt={"cap": 2}, weight=0.7), run("bounded", "vyukov_dw", c=1, opt={"cap": 2}, weight=0.4),
+              # sequential sweeps: requested capacities 1..40 (rounded up; SCQ cache-line remapping from 8), ring sizes 2..64, three laps
+              run("sweep", "nb", c=0, opt={"maxn": 40, "laps": 3, "maxcap": 40}, weight=0.1), run("sweep", "nb_p0", c=0, opt={"maxn": 40, "laps": 3, "maxcap": 40}, weight=0.1),
+              run("sweep", "vb", c=0, opt={"maxn": 70, "laps": 3}, weight=0.1),
+              # concurrent runs on a ring with remapped indexes (capacity 8)
+              run("bounded", "nikolaev", c=1, opt={"cap": 8, "prefill": 7}, weight=0.3), run("bounded", "nikolaev", c=1, opt={"cap": 8, "prefill": 0, "wrap": 9}, weight=0.3)],
+    "thorough": [run("sweep", "nb", c=0, opt={"maxn": 70, "laps": 4, "maxcap": 130}, weight=0.3), run("sweep", "nb_p0", c=0, opt={"maxn": 70, "laps": 4, "maxcap": 130}, weight=0.3),
+                 run("sweep", "vb", c=0, opt={"maxn": 140, "laps": 4, "maxlog": 6}, weight=0.2),
+                 run("bounded", "nikolaev", c=2, opt={"cap": 8, "prefill": 7}), run("bounded", "nikolaev", c=2, opt={"cap": 8, "prefill": 0, "wrap": 9}), run("bounded", "nikolaev", c=2, opt={"cap": 16, "prefill": 15, "wrap": 3}),
+                 run("bounded", "vyukov_api", c=2, opt={"cap": 2}), run("bounded", "vyukov_dw", c=2, opt={"cap": 2}), run("bounded", "vyukov_api", c=2, opt={"cap": 4, "wrap": 5}),
                  run("bounded", "vyukov_dw", c=2, opt={"cap": 2, "T": 3, "m": 1, "prefill": 1}),
                  run("bounded", "vyukov", c=3, opt={"cap": 2}, weight=6), run("bounded", "vyukov", c=2, opt={"cap": 4, "wrap": 9}),
                  run("bounded", "vyukov", c=2, opt={"cap": 2, "T": 3, "m": 1, "prefill": 1}),
@@ -220,7 +232,13 @@ _c06_quick = [
     run("kfifo", "kb_boundary", c=0, horizon=16000000, wall=240, opt={"segs": 65537, "fill": 65537, "ops": 70000}),
     run("kfifo", "kb_boundary", c=0, horizon=16000000, wall=240, opt={"segs": 70000, "fill": 3, "ops": 150000}),
 ]
+# sequential sweeps: k 1..5 x segments 1..5, batches of up to 40, three laps; with every start index 0 and with one deviating start index
+_c06_quick += [run("sweep", "kb", c=0, r=0, opt={"maxn": 40, "laps": 3}, weight=0.1), run("sweep", "kf_hp", c=0, r=0, opt={"maxn": 40, "laps": 3}, weight=0.1),
+               run("sweep", "kf_ebr", c=0, r=0, opt={"maxn": 40, "laps": 3}, weight=0.1),
+               run("sweep", "kb", c=0, r=1, opt={"maxn": 7, "laps": 2, "maxk": 3, "maxsegs": 3}, weight=0.3), run("sweep", "kf_hp", c=0, r=1, opt={"maxn": 7, "laps": 2, "maxk": 3}, weight=0.3)]
 _c06_thorough = [
+    run("sweep", "kb", c=0, r=0, opt={"maxn": 100, "laps": 4, "maxk": 7, "maxsegs": 7}, weight=0.3), run("sweep", "kf_hp", c=0, r=0, opt={"maxn": 100, "laps": 4, "maxk": 7}, weight=0.3),
+    run("sweep", "kb", c=0, r=1, opt={"maxn": 30, "laps": 2}, weight=2), run("sweep", "kf_hp", c=0, r=1, opt={"maxn": 30, "laps": 2}, weight=2), run("sweep", "kf_ebr", c=0, r=1, opt={"maxn": 20, "laps": 2}, weight=1),
     run("kfifo", "kb", c=3, r=1, opt={"k": 2, "segs": 2, "prefill": 1}, weight=8), run("kfifo", "kb", c=2, r=2, opt={"k": 2, "segs": 2}, weight=3),
     run("kfifo", "kb", c=3, opt={"k": 1, "segs": 1}, weight=2), run("kfifo", "kb", c=3, opt={"k": 1, "segs": 2}, weight=2),
     run("kfifo", "kb", c=2, r=1, opt={"k": 2, "segs": 3}), run("kfifo", "kb", c=2, r=1, opt={"k": 3, "segs": 2}),
@@ -264,6 +282,11 @@ for t in ["ram_e1_up_hp", "ram_e2_up_hp", "nik_e1_up_hp", "kf_k1_up_hp", "kf_k2_
     _c07_quick.append(run("ownership", t, c=2, weight=2))
     _c07_thorough.append(run("ownership", t, c=3, opt={"prefill": 1}, weight=6))
     _c07_thorough.append(run("ownership", t, c=2, heap="reuse", weight=1))
+# sequential sweeps with unique_ptr elements at larger node / ring / segment sizes, destroyed with two elements inside (and empty)
+for t in _sw_fifo + ["nb", "vb", "kb", "kf_hp"]:
+    _c07_quick.append(run("sweep", t, c=0, r=0, opt={"maxn": 24, "laps": 2, "rest": 2, "maxcap": 20}, weight=0.1))
+    _c07_thorough.append(run("sweep", t, c=0, r=0, opt={"maxn": 60, "laps": 3, "rest": 5, "maxcap": 70}, weight=0.2))
+    _c07_thorough.append(run("sweep", t, c=0, r=0, opt={"maxn": 40, "laps": 2, "rest": 0, "maxcap": 40}, weight=0.2))
 PLAN["C07"] = {
     "quick": _c07_quick, "thorough": _c07_thorough, "budget_s": {"quick": 150, "thorough": 1100},
     "rule": "programs: T threads x m operations over {push/try_push, try_pop}, all assignments (at least one push), then destruction of the queue WITHOUT draining; "
@@ -284,8 +307,10 @@ PLAN["C12"] = {
               run("deque", "grow2", c=2, weight=2), run("deque", "fixed2", c=2), run("deque", "grow4", c=1, opt={"m": 4}), run("deque", "grow2", c=3, opt={"offset": 2, "prefill": 2}, weight=2),
               run("deque", "grow2", c=1, opt={"thieves": 2, "s": 1}), run("deque", "grow2", c=1, mode="wmm", d=1), run("deque", "fixed2", c=1, mode="wmm", d=1)] +
              # two growths overtaking one steal: full array, three more pushes, at offsets in both halves of the 4C cycle
-             [run("deque", "grow2", c=3, opt={"offset": k, "prefill": 2, "m": 3, "s": 1}, weight=1) for k in (4, 5, 6, 7, 8)],
-    "thorough": [run("deque", "grow2", c=0, opt={"thieves": 0, "m": 8, "steal_between": 1, "maxoffset": 5}),
+             [run("deque", "grow2", c=3, opt={"offset": k, "prefill": 2, "m": 3, "s": 1}, weight=1) for k in (4, 5, 6, 7, 8)] +
+             # sequential sweeps: offsets 0..20 x fill levels 1..34 (array doubled up to 64) x take-out / second batch / drain patterns
+             [run("deque", t, c=0, weight=0.1) for t in ("sweep_grow2", "sweep_grow4", "sweep_growmax8", "sweep_fixed4")],
+    "thorough": [run("deque", t, c=0, opt={"maxoffset": 70, "maxn": 60}, weight=0.3) for t in ("sweep_grow2", "sweep_grow4", "sweep_growmax8", "sweep_fixed4")] + [run("deque", "grow2", c=0, opt={"thieves": 0, "m": 8, "steal_between": 1, "maxoffset": 5}),
                  run("deque", "grow4", c=0, opt={"thieves": 0, "m": 8, "steal_between": 1, "maxoffset": 7, "prefill": 2}),
                  run("deque", "fixed4", c=0, opt={"thieves": 0, "m": 8, "steal_between": 1, "maxoffset": 5}),
                  run("deque", "grow2", c=3, weight=6), run("deque", "fixed2", c=3, weight=4), run("deque", "grow2", c=2, opt={"thieves": 2, "s": 1}, weight=4),
